@@ -632,3 +632,380 @@ pub fn mutate(src: &str, r: &mut Reader<'_>) -> (String, Vec<Applied>) {
     }
     (text, applied)
 }
+
+// ====================================================================== context-aware mutation
+
+/// Where a context-aware mutation was applied (offsets are valid in the MUTATED text: the
+/// mutation lies inside the slot, so everything up to the slot's start is unchanged).
+#[derive(Clone, Debug, PartialEq, Serialize, Deserialize)]
+pub struct SiteInfo {
+    pub ctx: String,
+    pub slot_start: usize,
+    pub stmt_start: usize,
+    pub pou_start: usize,
+    pub pou_end: usize,
+    pub if_range: Option<(usize, usize)>,
+    /// Length change of the text (mutated - original).
+    pub delta: i64,
+    /// The unmutated program executed this site under the generated trace (the site was
+    /// chosen among the executed ones), so the mutated program reaches it too.
+    #[serde(default)]
+    pub executed_in_base: bool,
+}
+
+/// Was `site` evaluated according to the executed-statement log of the UNMUTATED program?
+pub fn site_executed(site: &super::context::Site, log: &[Vec<(u32, u32)>], starts: &std::collections::BTreeSet<u32>, src: &str) -> bool {
+    match site.ctx {
+        "initialiser" => {
+            if src.get(site.pou_start..).map(|t| t.trim_start().to_ascii_uppercase().starts_with("PROGRAM")).unwrap_or(false) {
+                return true;
+            }
+            starts.range(site.pou_start as u32..site.pou_end as u32).next().is_some()
+        }
+        "elsif_cond" => site_executed_slow(site, log, src),
+        _ => starts.contains(&(site.stmt_start as u32)),
+    }
+}
+
+fn site_executed_slow(site: &super::context::Site, log: &[Vec<(u32, u32)>], src: &str) -> bool {
+    match site.ctx {
+        "initialiser" => {
+            if src.get(site.pou_start..).map(|t| t.trim_start().to_ascii_uppercase().starts_with("PROGRAM")).unwrap_or(false) {
+                return true;
+            }
+            log.iter().flatten().any(|(s, _)| (*s as usize) >= site.pou_start && (*s as usize) < site.pou_end)
+        }
+        "elsif_cond" => {
+            let Some((is, ie)) = site.if_range else { return false };
+            for cyc in log {
+                for (i, (s, _)) in cyc.iter().enumerate() {
+                    if *s as usize != is {
+                        continue;
+                    }
+                    match cyc.get(i + 1) {
+                        Some((n, _)) if (*n as usize) > is && (*n as usize) < ie => {
+                            if (*n as usize) > site.start {
+                                return true;
+                            }
+                        }
+                        _ => return true,
+                    }
+                }
+            }
+            false
+        }
+        _ => log.iter().flatten().any(|(s, _)| *s as usize == site.stmt_start),
+    }
+}
+
+const INT_TYS: [&str; 8] = ["SINT", "INT", "DINT", "LINT", "USINT", "UINT", "UDINT", "ULINT"];
+
+/// Draw a context uniformly over the contexts that occur in `src`, a site of that context
+/// uniformly, and apply a mutation kind suited to the context.
+pub fn mutate_in_context(src: &str, r: &mut Reader<'_>, base_log: &[Vec<(u32, u32)>]) -> Option<(String, Applied, SiteInfo)> {
+    let all_sites = super::context::sites(src);
+    if all_sites.is_empty() {
+        return None;
+    }
+    // The desired context is drawn uniformly from the FULL list (uniform at the level of the
+    // search, not of the program). Coverage guided: sites of that context that the unmutated
+    // program executes are preferred; else any site of that context (then the alternative
+    // traces try to reach it); else uniform over the executed sites' contexts.
+    let starts: std::collections::BTreeSet<u32> = base_log.iter().flatten().map(|(s, _)| *s).collect();
+    let executed: Vec<super::context::Site> = all_sites.iter().filter(|s| site_executed(s, base_log, &starts, src)).cloned().collect();
+    let want = super::context::ALL_CONTEXTS[r.pick(super::context::ALL_CONTEXTS.len())];
+    let want_exec: Vec<super::context::Site> = executed.iter().filter(|s| s.ctx == want).cloned().collect();
+    let want_any: Vec<super::context::Site> = all_sites.iter().filter(|s| s.ctx == want).cloned().collect();
+    let (sites, guided) = if !want_exec.is_empty() {
+        (want_exec, true)
+    } else if !want_any.is_empty() && r.chance(1, 2) {
+        (want_any, false)
+    } else if !executed.is_empty() {
+        // uniform over the CONTEXTS of the executed sites, not over the sites
+        let cs: Vec<&str> = super::context::ALL_CONTEXTS.iter().copied().filter(|c| executed.iter().any(|s| s.ctx == *c)).collect();
+        let c = cs[r.pick(cs.len())];
+        (executed.iter().filter(|s| s.ctx == c).cloned().collect(), true)
+    } else {
+        let cs: Vec<&str> = super::context::ALL_CONTEXTS.iter().copied().filter(|c| all_sites.iter().any(|s| s.ctx == *c)).collect();
+        let c = cs[r.pick(cs.len())];
+        (all_sites.iter().filter(|s| s.ctx == c).cloned().collect(), false)
+    };
+    let present: Vec<&str> = super::context::ALL_CONTEXTS
+        .iter()
+        .copied()
+        .filter(|c| sites.iter().any(|s| s.ctx == *c))
+        .collect();
+    if present.is_empty() {
+        return None;
+    }
+    let ctx = present[r.pick(present.len())];
+    let of: Vec<&super::context::Site> = sites.iter().filter(|s| s.ctx == ctx).collect();
+    let site = of[r.pick(of.len())].clone();
+    let c = Ctx::new(src);
+    let (pous, callable) = scan_pous(&c);
+    let is_callable = |w: &str| callable.iter().any(|f| f.eq_ignore_ascii_case(w));
+    // variable table of the top-level POU that contains the site
+    let pou = pous.iter().find(|p| {
+        let lo = c.toks[c.sig[p.lo]].start;
+        let hi = c.toks[c.sig[p.hi]].end;
+        site.start >= lo && site.start < hi
+    })?;
+    let vars: Vec<(String, String)> = pou.vars.iter().filter(|(n, _)| !is_callable(n)).cloned().collect();
+    // significant tokens inside the slot
+    let in_slot: Vec<usize> = (0..c.n())
+        .filter(|&si| {
+            let t = &c.toks[c.sig[si]];
+            t.start >= site.start && t.end <= site.end
+        })
+        .collect();
+    let var_toks: Vec<usize> = in_slot
+        .iter()
+        .copied()
+        .filter(|&si| {
+            c.kind(si) == K::Word
+                && vars.iter().any(|(n, _)| n == c.text(si))
+                && !c.is(si + 1, "(")
+                && !(si > 0 && c.is(si - 1, "."))
+                // not the formal name of a named argument
+                && !(c.is(si + 1, ":=") && site.is_argument())
+                && !c.is(si + 1, "=>")
+        })
+        .collect();
+    let slot_text = &src[site.start..site.end];
+    let info = |delta: i64| SiteInfo {
+        ctx: ctx.to_string(),
+        slot_start: site.start,
+        stmt_start: site.stmt_start,
+        pou_start: site.pou_start,
+        pou_end: site.pou_end,
+        if_range: site.if_range,
+        delta,
+        executed_in_base: guided,
+    };
+    let done = |out: String, kind: &str, from: &str, to: &str, at: usize| -> Option<(String, Applied, SiteInfo)> {
+        let a = Applied {
+            kind: format!("{ctx}:{kind}"),
+            from: from.to_string(),
+            to: to.to_string(),
+            at,
+            line: line_of(&out, at),
+        };
+        let delta = out.len() as i64 - src.len() as i64;
+        Some((out, a, info(delta)))
+    };
+    // kinds: 0 swap_var (other type) 1 undeclared_name 2 non_bool_condition 3 retype_literal
+    // 4 swap_op 5 drop_arg 6 dup_arg 7 replace_label 8 insert_jump 9 replace_slot_with_var
+    // 10 replace_slot_with_string 11 empty_call_args
+    // 12 swap_var_same_type / 13 same_type_label: type-PRESERVING kinds (accepted by a correct
+    // checker); they give every context accepted-and-reached volume and change values.
+    let weights: [u32; 14] = if site.is_condition() {
+        [3, 3, 4, 1, 1, 0, 0, 0, 0, 1, 1, 0, 6, 0]
+    } else if site.is_argument() {
+        [3, 2, 0, 1, 0, 2, 1, 0, 0, 2, 1, 0, 6, 0]
+    } else if ctx == "case_label" {
+        [0, 0, 0, 0, 0, 0, 0, 2, 0, 0, 0, 0, 0, 2]
+    } else if site.is_statement() {
+        [3, 3, 0, 1, 1, 0, 0, 0, 4, 0, 0, 0, 6, 0]
+    } else if ctx == "assign_lhs" {
+        [4, 2, 0, 0, 0, 0, 0, 0, 0, 1, 0, 0, 4, 0]
+    } else if ctx == "this_super_call" || ctx == "method_call" {
+        [3, 2, 0, 1, 0, 0, 0, 0, 0, 0, 0, 3, 5, 0]
+    } else {
+        [4, 3, 0, 1, 1, 0, 0, 0, 0, 3, 1, 0, 6, 0]
+    };
+    let first = r.weighted(&weights);
+    // try the drawn kind, then the others in a fixed order
+    let mut order: Vec<usize> = vec![first];
+    order.extend((0..14).filter(|k| *k != first && weights[*k] > 0));
+    for kind in order {
+        match kind {
+            0 => {
+                if var_toks.is_empty() {
+                    continue;
+                }
+                let si = var_toks[r.pick(var_toks.len())];
+                let old = c.text(si);
+                let old_ty = vars.iter().find(|(n, _)| n == old).map(|(_, t)| t.clone()).unwrap_or_default();
+                let pool: Vec<&(String, String)> = vars.iter().filter(|(n, t)| n != old && !t.is_empty() && *t != old_ty).collect();
+                if pool.is_empty() {
+                    continue;
+                }
+                let (new, new_ty) = pool[r.pick(pool.len())];
+                let tok = &c.toks[c.sig[si]];
+                let out = splice(src, tok.start, tok.end, new);
+                return done(out, "swap_var", &format!("{old}:{old_ty}"), &format!("{new}:{new_ty}"), tok.start);
+            }
+            1 => {
+                if let Some(&si) = var_toks.get(r.pick(var_toks.len().max(1))) {
+                    let tok = &c.toks[c.sig[si]];
+                    let out = splice(src, tok.start, tok.end, "zz_undeclared");
+                    return done(out, "undeclared_name", c.text(si), "zz_undeclared", tok.start);
+                }
+                if site.is_statement() || site.is_argument() || ctx == "case_label" {
+                    continue;
+                }
+                let out = splice(src, site.start, site.end, "zz_undeclared");
+                return done(out, "undeclared_name", slot_text, "zz_undeclared", site.start);
+            }
+            2 => {
+                let ints: Vec<&(String, String)> = vars.iter().filter(|(_, t)| INT_TYS.contains(&t.as_str())).collect();
+                let new = if ints.is_empty() || r.chance(1, 4) {
+                    "DINT#1".to_string()
+                } else {
+                    ints[r.pick(ints.len())].0.clone()
+                };
+                let out = splice(src, site.start, site.end, &new);
+                return done(out, "non_bool_condition", slot_text, &new, site.start);
+            }
+            3 => {
+                let lits: Vec<usize> = in_slot.iter().copied().filter(|&si| c.kind(si) == K::TypedLit).collect();
+                if lits.is_empty() {
+                    continue;
+                }
+                let si = lits[r.pick(lits.len())];
+                let old = c.text(si);
+                let Some((pre, body)) = old.split_once('#') else { continue };
+                const TY: [&str; 12] = ["SINT", "INT", "DINT", "LINT", "USINT", "UINT", "UDINT", "ULINT", "REAL", "LREAL", "WORD", "BOOL"];
+                if !TY.contains(&pre.to_ascii_uppercase().as_str()) {
+                    continue;
+                }
+                let t = TY[r.pick(TY.len())];
+                if t.eq_ignore_ascii_case(pre) {
+                    continue;
+                }
+                let new = format!("{t}#{body}");
+                let tok = &c.toks[c.sig[si]];
+                let out = splice(src, tok.start, tok.end, &new);
+                return done(out, "retype_literal", old, &new, tok.start);
+            }
+            4 => {
+                const OPS: [&str; 15] = ["+", "-", "*", "/", "MOD", "AND", "OR", "XOR", "=", "<>", "<", "<=", ">", ">=", "&"];
+                let ops: Vec<usize> = in_slot
+                    .iter()
+                    .copied()
+                    .filter(|&si| {
+                        si > 0
+                            && OPS.iter().any(|o| c.text(si).eq_ignore_ascii_case(o))
+                            && (matches!(c.kind(si - 1), K::Word | K::TypedLit | K::Number | K::Str) && !is_keyword_not_operand(c.text(si - 1)) || c.is(si - 1, ")") || c.is(si - 1, "]"))
+                    })
+                    .collect();
+                if ops.is_empty() {
+                    continue;
+                }
+                let si = ops[r.pick(ops.len())];
+                let old = c.text(si).to_ascii_uppercase();
+                let new = ["+", "<", "AND", "MOD", "=", "OR", "*"][r.pick(7)];
+                if new == old {
+                    continue;
+                }
+                let tok = &c.toks[c.sig[si]];
+                let out = splice(src, tok.start, tok.end, new);
+                return done(out, "swap_op", &old, new, tok.start);
+            }
+            5 | 6 => {
+                if !site.is_argument() {
+                    continue;
+                }
+                if kind == 6 {
+                    let out = splice(src, site.end, site.end, &format!(", {slot_text}"));
+                    return done(out, "dup_arg", slot_text, slot_text, site.end);
+                }
+                // drop the argument with one adjacent comma
+                let after = src[site.end..].find(|ch: char| !ch.is_whitespace()).map(|o| site.end + o);
+                let before = src[..site.start].rfind(|ch: char| !ch.is_whitespace());
+                let (ds, de) = match (after, before) {
+                    (Some(a), _) if src[a..].starts_with(',') => (site.start, a + 1),
+                    (_, Some(b)) if src[..=b].ends_with(',') => (b, site.end),
+                    _ => (site.start, site.end),
+                };
+                let out = splice(src, ds, de, "");
+                return done(out, "drop_arg", slot_text, "", ds);
+            }
+            7 => {
+                let pool: Vec<String> = {
+                    let mut v = vec!["REAL#1.5".to_string(), "'a'".to_string(), "TRUE".to_string(), "T#1s".to_string()];
+                    if let Some((n, _)) = vars.first() {
+                        v.push(n.clone());
+                    }
+                    v
+                };
+                let new = pool[r.pick(pool.len())].clone();
+                let out = splice(src, site.start, site.end, &new);
+                return done(out, "replace_label", slot_text, &new, site.start);
+            }
+            8 => {
+                // after the statement's terminating ';'
+                let Some(semi) = src[site.end.saturating_sub(1)..].find(';').map(|o| site.end.saturating_sub(1) + o + 1) else {
+                    continue;
+                };
+                let what = ["EXIT;", "CONTINUE;", "RETURN;"][r.weighted(&[3, 2, 1])];
+                let out = splice(src, semi, semi, &format!(" {what}"));
+                let k = if site.in_loop { "jump_in_loop" } else { "jump_outside_loop" };
+                return done(out, k, "", what, semi);
+            }
+            9 => {
+                if vars.is_empty() || site.is_statement() {
+                    continue;
+                }
+                let (new, ty) = &vars[r.pick(vars.len())];
+                if site.is_argument() {
+                    // keep `name :=` / `name =>` of a named argument
+                    if let Some(p) = slot_text.find(":=").map(|p| p + 2).or_else(|| slot_text.find("=>").map(|p| p + 2)) {
+                        let out = splice(src, site.start + p, site.end, &format!(" {new}"));
+                        return done(out, "replace_slot_with_var", slot_text, &format!("{new}:{ty}"), site.start);
+                    }
+                }
+                let out = splice(src, site.start, site.end, new);
+                return done(out, "replace_slot_with_var", slot_text, &format!("{new}:{ty}"), site.start);
+            }
+            10 => {
+                if site.is_statement() {
+                    continue;
+                }
+                if site.is_argument() && (slot_text.contains(":=") || slot_text.contains("=>")) {
+                    continue;
+                }
+                let out = splice(src, site.start, site.end, "'abc'");
+                return done(out, "replace_slot_with_string", slot_text, "'abc'", site.start);
+            }
+            12 => {
+                if var_toks.is_empty() {
+                    continue;
+                }
+                let si = var_toks[r.pick(var_toks.len())];
+                let old = c.text(si);
+                let old_ty = vars.iter().find(|(n, _)| n == old).map(|(_, t)| t.clone()).unwrap_or_default();
+                let pool: Vec<&(String, String)> = vars.iter().filter(|(n, t)| n != old && !t.is_empty() && *t == old_ty).collect();
+                if pool.is_empty() {
+                    continue;
+                }
+                let (new, _) = pool[r.pick(pool.len())];
+                let tok = &c.toks[c.sig[si]];
+                let out = splice(src, tok.start, tok.end, new);
+                return done(out, "swap_var_same_type", &format!("{old}:{old_ty}"), &format!("{new}:{old_ty}"), tok.start);
+            }
+            13 => {
+                // another integer label (plain digits keep the selector's type)
+                if !slot_text.chars().all(|ch| ch.is_ascii_digit() || ch == '-') || slot_text.is_empty() {
+                    continue;
+                }
+                let new = format!("{}", 40 + r.pick(60));
+                let out = splice(src, site.start, site.end, &new);
+                return done(out, "same_type_label", slot_text, &new, site.start);
+            }
+            _ => {
+                // method / THIS / SUPER call with an emptied argument list (wrong count)
+                let Some(open) = slot_text.find('(') else { continue };
+                let Some(close) = slot_text.rfind(')') else { continue };
+                if close <= open + 1 {
+                    // no arguments: add one
+                    let out = splice(src, site.start + open + 1, site.start + close, "DINT#1");
+                    return done(out, "extra_call_arg", slot_text, "DINT#1", site.start);
+                }
+                let out = splice(src, site.start + open + 1, site.start + close, "");
+                return done(out, "empty_call_args", slot_text, "", site.start);
+            }
+        }
+    }
+    None
+}
